@@ -1,9 +1,905 @@
-/- C06 — executable model (core Lean only).  Stub. -/
+/-
+C06 — M-ASM: model of `Mesh.assemble` (vertex merging through the C05 model, blocks, edges,
+patches, projected faces, geometry), of the renderer `Mesh.write` / `*.description` down to the
+token stream of the written file, and of a parser of that token stream (bracket layer + schema
+layer).  Core Lean only.
+
+Opaque (taken from the implementation, they belong to C01–C04 / C07 / C08): the count and grading
+entries of a `hex` line, the payload of a curved edge (kind, validity, tokens of its description),
+`str(value)` of settings and geometry properties, `repr(float)` in the debug VTK.
+-/
 import CBV.Model.Common
 import CBV.Gen.Tables
+import CBV.Model.C05
 
 namespace CBV.C06
 
-def handle (_op : String) (_args : List String) : Option String := none
+/-! ## 1. tokens and the bracket layer -/
+
+/-- A token of a blockMeshDict: brackets, `;`, a word, a `// …` comment (to the end of the line). -/
+inductive Tok where
+  | lp | rp | lb | rb | semi
+  | word (s : String)
+  | comment (s : String)
+  deriving DecidableEq, Repr
+
+/-- Bracket structure of a token stream. -/
+inductive Tree where
+  | atom (s : String)
+  | semi
+  | comment (s : String)
+  | paren (ts : List Tree)
+  | brace (ts : List Tree)
+  deriving Repr
+
+mutual
+/-- tokens of a tree -/
+def Tree.flat : Tree → List Tok
+  | .atom s => [.word s]
+  | .semi => [.semi]
+  | .comment s => [.comment s]
+  | .paren ts => .lp :: (flatList ts ++ [.rp])
+  | .brace ts => .lb :: (flatList ts ++ [.rb])
+/-- tokens of a sequence of trees -/
+def flatList : List Tree → List Tok
+  | [] => []
+  | t :: ts => t.flat ++ flatList ts
+end
+
+inductive Open where
+  | paren | brace
+  deriving DecidableEq, Repr
+
+/-- Shift–reduce parser of the bracket structure: `stk` holds the enclosing open brackets with
+    the trees read before them (reversed), `cur` the trees of the innermost level (reversed). -/
+def parseStk : List Tok → List (Open × List Tree) → List Tree → Option (List Tree)
+  | [], [], cur => some cur.reverse
+  | [], _ :: _, _ => none
+  | .lp :: ts, stk, cur => parseStk ts ((.paren, cur) :: stk) []
+  | .lb :: ts, stk, cur => parseStk ts ((.brace, cur) :: stk) []
+  | .rp :: ts, (.paren, prev) :: stk, cur => parseStk ts stk (.paren cur.reverse :: prev)
+  | .rp :: _, _, _ => none
+  | .rb :: ts, (.brace, prev) :: stk, cur => parseStk ts stk (.brace cur.reverse :: prev)
+  | .rb :: _, _, _ => none
+  | .semi :: ts, stk, cur => parseStk ts stk (.semi :: cur)
+  | .word s :: ts, stk, cur => parseStk ts stk (.atom s :: cur)
+  | .comment s :: ts, stk, cur => parseStk ts stk (.comment s :: cur)
+
+def parseTrees (ts : List Tok) : Option (List Tree) := parseStk ts [] []
+
+/-! ## 2. the dictionary (what a blockMeshDict says) and its schema layer -/
+
+/-- `(x y z) // i` or `project (x y z) (labels) // i` -/
+structure VEntry where
+  coords : List String
+  proj : List String
+  comment : String
+  deriving Repr
+
+/-- `hex ( v0 … v7 ) zone ( nx ny nz ) <grading keyword> ( … ) // i` -/
+structure BEntry where
+  verts : List Nat
+  zone : String
+  counts : List Tree
+  gkind : String
+  grading : List Tree
+  comment : String
+  deriving Repr
+
+/-- `[// alternative specification] kind v1 v2 ( payload )` -/
+structure EEntry where
+  pre : Option String
+  kind : String
+  v1 : Nat
+  v2 : Nat
+  payload : List Tree
+  deriving Repr
+
+/-- `project (a b c d) label` -/
+structure FEntry where
+  quad : List Nat
+  label : String
+  deriving Repr
+
+/-- `name { type kind; option; … faces ( (a b c d) … ); }` -/
+structure PEntry where
+  name : String
+  kind : String
+  settings : List (List Tree)
+  quads : List (List Nat)
+  deriving Repr
+
+/-- `name { property; … }` -/
+structure GEntry where
+  name : String
+  props : List (List Tree)
+  deriving Repr
+
+structure Dict where
+  foamFile : List Tree
+  headComment : String
+  settings : List (String × List Tree)
+  geometry : List GEntry
+  vertices : List VEntry
+  blocks : List BEntry
+  edges : List EEntry
+  faces : List FEntry
+  patches : List PEntry
+  default : Option (String × String)
+  merged : List (String × String)
+  footer : List String
+  deriving Repr
+
+def Tree.isSemi : Tree → Bool
+  | .semi => true
+  | _ => false
+
+def atomsOf : List Tree → Option (List String)
+  | [] => some []
+  | .atom s :: ts => (atomsOf ts).map (s :: ·)
+  | _ :: _ => none
+
+def natsOf : List Tree → Option (List Nat)
+  | [] => some []
+  | .atom s :: ts => do
+      let n ← s.toNat?
+      let r ← natsOf ts
+      some (n :: r)
+  | _ :: _ => none
+
+def commentsOf : List Tree → Option (List String)
+  | [] => some []
+  | .comment s :: ts => (commentsOf ts).map (s :: ·)
+  | _ :: _ => none
+
+def natAtoms (ns : List Nat) : List Tree := ns.map (fun n => Tree.atom (toString n))
+
+/-- repeated application of an entry decoder until the input is used up (`fuel` ≥ length) -/
+def decMany {α : Type} (step : List Tree → Option (α × List Tree)) : Nat → List Tree → Option (List α)
+  | _, [] => some []
+  | 0, _ :: _ => none
+  | fuel + 1, t :: ts =>
+      match step (t :: ts) with
+      | some (x, rest) => (decMany step fuel rest).map (x :: ·)
+      | none => none
+
+/-- statements `tree … tree ;` -/
+def encStmts (ss : List (List Tree)) : List Tree := ss.flatMap (· ++ [Tree.semi])
+
+/-- splits at `;` (every statement must be terminated) -/
+def splitSemi : List Tree → List Tree → Option (List (List Tree))
+  | [], [] => some []
+  | [], _ :: _ => none
+  | t :: ts, acc =>
+      if t.isSemi then (splitSemi ts []).map (acc.reverse :: ·) else splitSemi ts (t :: acc)
+
+/-! ### entries -/
+
+def encV (v : VEntry) : List Tree :=
+  if v.proj.isEmpty then [.paren (v.coords.map .atom), .comment v.comment]
+  else [.atom "project", .paren (v.coords.map .atom), .paren (v.proj.map .atom), .comment v.comment]
+
+def stepV : List Tree → Option (VEntry × List Tree)
+  | .atom "project" :: .paren cs :: .paren ls :: .comment c :: rest => do
+      let cs ← atomsOf cs
+      let ls ← atomsOf ls
+      if ls.isEmpty then none else some (⟨cs, ls, c⟩, rest)
+  | .paren cs :: .comment c :: rest => do
+      let cs ← atomsOf cs
+      some (⟨cs, [], c⟩, rest)
+  | _ => none
+
+def encB (b : BEntry) : List Tree :=
+  if b.zone.isEmpty then
+    [.atom "hex", .paren (natAtoms b.verts), .paren b.counts, .atom b.gkind, .paren b.grading, .comment b.comment]
+  else
+    [.atom "hex", .paren (natAtoms b.verts), .atom b.zone, .paren b.counts, .atom b.gkind, .paren b.grading,
+      .comment b.comment]
+
+def stepB : List Tree → Option (BEntry × List Tree)
+  | .atom "hex" :: .paren vs :: .atom z :: .paren c :: .atom g :: .paren gr :: .comment cm :: rest => do
+      let vs ← natsOf vs
+      if z.isEmpty then none else some (⟨vs, z, c, g, gr, cm⟩, rest)
+  | .atom "hex" :: .paren vs :: .paren c :: .atom g :: .paren gr :: .comment cm :: rest => do
+      let vs ← natsOf vs
+      some (⟨vs, "", c, g, gr, cm⟩, rest)
+  | _ => none
+
+def encE (e : EEntry) : List Tree :=
+  (match e.pre with | some c => [Tree.comment c] | none => []) ++
+    [.atom e.kind, .atom (toString e.v1), .atom (toString e.v2), .paren e.payload]
+
+def stepE : List Tree → Option (EEntry × List Tree)
+  | .comment c :: .atom k :: .atom a :: .atom b :: .paren p :: rest => do
+      let a ← a.toNat?
+      let b ← b.toNat?
+      some (⟨some c, k, a, b, p⟩, rest)
+  | .atom k :: .atom a :: .atom b :: .paren p :: rest => do
+      let a ← a.toNat?
+      let b ← b.toNat?
+      some (⟨none, k, a, b, p⟩, rest)
+  | _ => none
+
+def encF (f : FEntry) : List Tree := [.atom "project", .paren (natAtoms f.quad), .atom f.label]
+
+def stepF : List Tree → Option (FEntry × List Tree)
+  | .atom "project" :: .paren q :: .atom l :: rest => do
+      let q ← natsOf q
+      some (⟨q, l⟩, rest)
+  | _ => none
+
+def encQuad (q : List Nat) : List Tree := [.paren (natAtoms q)]
+
+def stepQuad : List Tree → Option (List Nat × List Tree)
+  | .paren q :: rest => (natsOf q).map (·, rest)
+  | _ => none
+
+/-- `type kind ; option ; … ; faces ( quads ) ;` — the last statement holds the faces -/
+def encP (p : PEntry) : List Tree :=
+  [.atom p.name,
+   .brace (encStmts ([[.atom "type", .atom p.kind]] ++ p.settings ++
+      [[.atom "faces", .paren (p.quads.flatMap encQuad)]]))]
+
+def decPBody (name : String) (ss : List (List Tree)) : Option PEntry :=
+  match ss with
+  | [.atom "type", .atom k] :: rest =>
+      match rest.getLast? with
+      | some [.atom "faces", .paren qs] => do
+          let qs ← decMany stepQuad qs.length qs
+          some ⟨name, k, rest.dropLast, qs⟩
+      | _ => none
+  | _ => none
+
+def stepP : List Tree → Option (PEntry × List Tree)
+  | .atom n :: .brace body :: rest => do
+      let ss ← splitSemi body []
+      let p ← decPBody n ss
+      some (p, rest)
+  | _ => none
+
+def encG (g : GEntry) : List Tree := [.atom g.name, .brace (encStmts g.props)]
+
+def stepG : List Tree → Option (GEntry × List Tree)
+  | .atom n :: .brace body :: rest => do
+      let ss ← splitSemi body []
+      some (⟨n, ss⟩, rest)
+  | _ => none
+
+def encM (m : String × String) : List Tree := [.paren [.atom m.1, .atom m.2]]
+
+def stepM : List Tree → Option ((String × String) × List Tree)
+  | .paren [.atom a, .atom b] :: rest => some ((a, b), rest)
+  | _ => none
+
+/-- keywords at which the settings end -/
+def isSectionKey (s : String) : Bool := s == "geometry" || s == "vertices"
+
+def encSetting (s : String × List Tree) : List Tree := Tree.atom s.1 :: (s.2 ++ [Tree.semi])
+
+/-- reads the value of a setting up to `;` -/
+def spanSemi : List Tree → List Tree → Option (List Tree × List Tree)
+  | [], _ => none
+  | t :: ts, acc => if t.isSemi then some (acc.reverse, ts) else spanSemi ts (t :: acc)
+
+def decSettings : Nat → List Tree → Option (List (String × List Tree) × List Tree)
+  | 0, _ => none
+  | fuel + 1, .atom k :: ts =>
+      if isSectionKey k then some ([], .atom k :: ts)
+      else do
+        let (v, rest) ← spanSemi ts []
+        let (ss, rest') ← decSettings fuel rest
+        some ((k, v) :: ss, rest')
+  | _ + 1, _ => none
+
+/-- the whole file as trees -/
+def encode (d : Dict) : List Tree :=
+  [.atom "FoamFile", .brace d.foamFile, .comment d.headComment] ++
+  d.settings.flatMap encSetting ++
+  (if d.geometry.isEmpty then [] else [.atom "geometry", .brace (d.geometry.flatMap encG), .semi]) ++
+  [.atom "vertices", .paren (d.vertices.flatMap encV), .semi,
+   .atom "blocks", .paren (d.blocks.flatMap encB), .semi,
+   .atom "edges", .paren (d.edges.flatMap encE), .semi,
+   .atom "faces", .paren (d.faces.flatMap encF), .semi,
+   .atom "boundary", .paren (d.patches.flatMap encP), .semi] ++
+  (match d.default with
+   | some (n, k) => [.atom "defaultPatch", .brace [.atom "name", .atom n, .semi, .atom "type", .atom k, .semi]]
+   | none => []) ++
+  [.atom "mergePatchPairs", .paren (d.merged.flatMap encM), .semi] ++
+  d.footer.map .comment
+
+def decTail (ff : List Tree) (hc : String) (settings : List (String × List Tree)) (geometry : List GEntry)
+    (vs : List VEntry) (bs : List BEntry) (es : List EEntry) (fs : List FEntry) (ps : List PEntry)
+    (dflt : Option (String × String)) : List Tree → Option Dict
+  | .atom "mergePatchPairs" :: .paren m :: .semi :: tail => do
+      let ms ← decMany stepM m.length m
+      let ft ← commentsOf tail
+      some ⟨ff, hc, settings, geometry, vs, bs, es, fs, ps, dflt, ms, ft⟩
+  | _ => none
+
+def decSections (ff : List Tree) (hc : String) (settings : List (String × List Tree)) (geometry : List GEntry) :
+    List Tree → Option Dict
+  | .atom "vertices" :: .paren v :: .semi :: .atom "blocks" :: .paren b :: .semi ::
+    .atom "edges" :: .paren e :: .semi :: .atom "faces" :: .paren f :: .semi ::
+    .atom "boundary" :: .paren p :: .semi :: rest => do
+      let vs ← decMany stepV v.length v
+      let bs ← decMany stepB b.length b
+      let es ← decMany stepE e.length e
+      let fs ← decMany stepF f.length f
+      let ps ← decMany stepP p.length p
+      match rest with
+      | .atom "defaultPatch" :: .brace [.atom "name", .atom n, .semi, .atom "type", .atom k, .semi] :: rest' =>
+          decTail ff hc settings geometry vs bs es fs ps (some (n, k)) rest'
+      | _ => decTail ff hc settings geometry vs bs es fs ps none rest
+  | _ => none
+
+def decode : List Tree → Option Dict
+  | .atom "FoamFile" :: .brace ff :: .comment hc :: ts => do
+      let (settings, rest) ← decSettings (ts.length + 1) ts
+      match rest with
+      | .atom "geometry" :: .brace g :: .semi :: rest' => do
+          let gs ← decMany stepG g.length g
+          if gs.isEmpty then none else decSections ff hc settings gs rest'
+      | _ => decSections ff hc settings [] rest
+  | _ => none
+
+/-- the written file as a token stream -/
+def render (d : Dict) : List Tok := flatList (encode d)
+
+/-- the parser of the token stream of a blockMeshDict -/
+def parse (ts : List Tok) : Option Dict := (parseTrees ts).bind decode
+
+/-! ## 3. the user-level declaration and `Mesh.assemble` -/
+
+/-- One corner of an operation: exact position (for merging), `%.8f` strings are computed by
+    `fmt8`; `neg` records the sign bit of each coordinate (python prints `-0.00000000`);
+    `vtk` = `str()` of the three float64 coordinates (opaque); `proj` = `Point.projected_to`. -/
+structure Corner where
+  pos : V3
+  neg : List Bool
+  vtk : List String
+  proj : List String
+  deriving Repr
+
+/-- Edge datum of one storage slot: `repr` is what `Edge.representation` prints (`line` for a
+    line), `valid` = `Edge.is_valid`, `pre` the alternative specification written as a comment
+    (text before / after the two indices), payload tokens for both directions. -/
+structure EdgeDecl where
+  repr : String
+  valid : Bool
+  preFwd : Option (String × String)
+  fwd : List Tree
+  preBwd : Option (String × String)
+  bwd : List Tree
+  deriving Repr
+
+structure OpDecl where
+  deleted : Bool
+  corners : List Corner                 -- 8
+  patches : List (Option String)        -- bottom, top, then SIDES_MAP order
+  sideProj : List (Option String)       -- SIDES_MAP order
+  bottomProj : Option String
+  topProj : Option String
+  zone : String
+  counts : List Tree
+  gkind : String
+  grading : List Tree
+  edges : List EdgeDecl                 -- bottom 0..3, top 0..3, side 0..3
+  deriving Repr
+
+structure Entity where
+  ops : List OpDecl
+  geometry : List GEntry
+  deriving Repr
+
+structure Modify where
+  name : String
+  kind : String
+  settings : Option (List (List Tree))
+  deriving Repr
+
+structure Decl where
+  foamFile : List Tree
+  headComment : String
+  footer : List String
+  settings : List (String × List Tree)
+  geomBefore : List GEntry
+  geomAfter : List GEntry
+  mergedBefore : List (String × String)
+  mergedAfter : List (String × String)
+  default : Option (String × String)
+  modifyBefore : List Modify
+  modifyAfter : List Modify
+  depot : List Entity
+  deriving Repr
+
+/-! ### numbers -/
+
+def pow10 : Nat → Nat
+  | 0 => 1
+  | n + 1 => 10 * pow10 n
+
+/-- nearest integer to a non-negative rational, ties to even -/
+def roundHalfEven (x : Rat) : Nat :=
+  let fl := x.floor.toNat
+  let fr := x - (fl : Rat)
+  if fr < 1 / 2 then fl else if 1 / 2 < fr then fl + 1 else if fl % 2 = 0 then fl else fl + 1
+
+/-- `round(|q| * 10^8)` to the nearest integer, ties to even (what `%.8f` does with the exact
+    binary value) -/
+def round8 (q : Rat) : Nat := roundHalfEven ((if q < 0 then -q else q) * ((pow10 8 : Nat) : Rat))
+
+def pad8 (s : String) : String := "".pushn '0' (8 - s.length) ++ s
+
+/-- python `f"{x:.8f}"`; `neg` is the sign bit of `x` -/
+def fmt8 (neg : Bool) (q : Rat) : String :=
+  let n := round8 q
+  (if neg then "-" else "") ++ toString (n / pow10 8) ++ "." ++ pad8 (toString (n % pow10 8))
+
+def Corner.coords (c : Corner) : List String :=
+  [fmt8 (c.neg.getD 0 false) c.pos.x, fmt8 (c.neg.getD 1 false) c.pos.y, fmt8 (c.neg.getD 2 false) c.pos.z]
+
+/-! ### vertices: the C05 model with corners as points -/
+
+def closeCorner (a b : Corner) : Bool := C05.closeV3 a.pos b.pos
+
+def OpDecl.toC05 (o : OpDecl) : C05.Op Corner String :=
+  { pts := o.corners, bottom := (o.patches.getD 0 none), top := (o.patches.getD 1 none),
+    sides := (o.patches.drop 2) }
+
+/-- non-deleted operations of the depot, flattened, in depot order -/
+def liveOps (depot : List Entity) : List OpDecl :=
+  depot.flatMap (fun e => e.ops.filter (fun o => !o.deleted))
+
+/-! ### blocks, edges, patches, faces, geometry -/
+
+/-- `[vertices[i] for i in FACE_MAP[orient]]` as vertex indices -/
+def quadOf (verts : List Nat) (orient : String) : List Nat :=
+  ((CBV.Gen.faceMap.lookup orient).getD []).map (fun i => verts.getD i 0)
+
+/-- `Side.__eq__`: same set of vertex indices -/
+def sameSet (a b : List Nat) : Bool := a.all (b.contains ·) && b.all (a.contains ·)
+
+/-- orient names in the order of `Operation.patch_names` -/
+def orients : List String := ["bottom", "top"] ++ CBV.Gen.sidesMap
+
+/-- `PatchList.get` + `Patch.add_side` -/
+def addPatchSide (ps : List PEntry) (name : String) (quad : List Nat) : List PEntry :=
+  if ps.any (·.name == name) then
+    ps.map (fun p => if p.name == name then
+        (if p.quads.any (sameSet · quad) then p else { p with quads := p.quads ++ [quad] }) else p)
+  else ps ++ [⟨name, "patch", [], [quad]⟩]
+
+/-- `PatchList.add(vertices, operation)` -/
+def addPatches (ps : List PEntry) (o : OpDecl) (verts : List Nat) : List PEntry :=
+  (orients.zip o.patches).foldl (fun ps (orient, n) =>
+    match n with
+    | some name => addPatchSide ps name (quadOf verts orient)
+    | none => ps) ps
+
+/-- `PatchList.modify` -/
+def modifyPatch (ps : List PEntry) (m : Modify) : List PEntry :=
+  let upd (p : PEntry) : PEntry :=
+    { p with kind := m.kind, settings := match m.settings with | some s => s | none => p.settings }
+  if ps.any (·.name == m.name) then ps.map (fun p => if p.name == m.name then upd p else p)
+  else ps ++ [upd ⟨m.name, "patch", [], []⟩]
+
+/-- `FaceList.add_side` -/
+def addFace (fs : List FEntry) (quad : List Nat) (label : String) : List FEntry :=
+  if fs.any (fun f => sameSet f.quad quad) then fs else fs ++ [⟨quad, label⟩]
+
+/-- `FaceList.add(vertices, operation)`: the four sides in `SIDES_MAP` order, then bottom, top -/
+def addFaces (fs : List FEntry) (o : OpDecl) (verts : List Nat) : List FEntry :=
+  let fs := (CBV.Gen.sidesMap.zip o.sideProj).foldl (fun fs (orient, l) =>
+    match l with
+    | some label => addFace fs (quadOf verts orient) label
+    | none => fs) fs
+  let fs := match o.bottomProj with | some l => addFace fs (quadOf verts "bottom") l | none => fs
+  match o.topProj with | some l => addFace fs (quadOf verts "top") l | none => fs
+
+/-- storage slot of the beam between two corners, as `Operation.edges` fills the frame:
+    bottom `i` ↦ (i, i+1 mod 4), top `i` ↦ (i+4, (i+1 mod 4)+4), side `i` ↦ (i, i+4) -/
+def slotOfPair (a b : Nat) : Option Nat :=
+  let lo := min a b
+  let hi := max a b
+  if hi < 4 then (if hi = lo + 1 then some lo else if lo = 0 ∧ hi = 3 then some 3 else none)
+  else if 4 ≤ lo then (if hi = lo + 1 then some lo else if lo = 4 ∧ hi = 7 then some 7 else none)
+  else if hi = lo + 4 then some (8 + lo) else none
+
+/-- whether the slot's own direction (i → i+1, bottom → top) is `a → b` -/
+def slotForward (slot a b : Nat) : Bool :=
+  if slot < 4 then b == (a + 1) % 4
+  else if slot < 8 then b == (a - 4 + 1) % 4 + 4
+  else a < b
+
+/-- `EdgeList.add`: look for an edge between the same two vertices, otherwise create one and keep
+    it when it is valid -/
+def addEdge (es : List EEntry) (v1 v2 : Nat) (d : EdgeDecl) (forward : Bool) : List EEntry :=
+  if es.any (fun e => (e.v1 == v1 && e.v2 == v2) || (e.v1 == v2 && e.v2 == v1)) then es
+  else if d.valid && d.repr != "line" then
+    let pre := if forward then d.preFwd else d.preBwd
+    es ++ [⟨pre.map (fun (a, b) => a ++ toString v1 ++ " " ++ toString v2 ++ b), d.repr, v1, v2,
+      if forward then d.fwd else d.bwd⟩]
+  else es
+
+/-- `EdgeList.add_from_operation`: the beams in the generated enumeration order and direction -/
+def addEdges (es : List EEntry) (o : OpDecl) (verts : List Nat) : List EEntry :=
+  CBV.Gen.c06EdgeOrder.foldl (fun es (a, b) =>
+    match slotOfPair a b with
+    | some slot =>
+        match o.edges[slot]? with
+        | some d => addEdge es (verts.getD a 0) (verts.getD b 0) d (slotForward slot a b)
+        | none => es
+    | none => es) es
+
+/-- `GeometryList.add`: `{**old, **new}` -/
+def addGeometry (gs : List GEntry) (g : GEntry) : List GEntry :=
+  if gs.any (·.name == g.name) then gs.map (fun x => if x.name == g.name then g else x) else gs ++ [g]
+
+def vertexEntry (v : C05.Vertex Corner) : VEntry :=
+  ⟨v.pos.coords, v.pos.proj, "// " ++ toString v.index⟩
+
+def blockEntry (i : Nat) (o : OpDecl) (verts : List Nat) : BEntry :=
+  ⟨verts, o.zone, o.counts, o.gkind, o.grading, "// " ++ toString i⟩
+
+/-- non-deleted operations in depot order -/
+def declOps (d : Decl) : List OpDecl := liveOps d.depot
+
+/-- `Mesh._add_vertices` for all of them: the C05 model (slaves = merged pairs known at assembly) -/
+def declVA (d : Decl) : C05.VList Corner String × List (List (C05.Vertex Corner)) :=
+  C05.assemble closeCorner (C05.slavePatches d.mergedBefore) {} ((declOps d).map OpDecl.toC05)
+
+/-- `Block.indexes` of every block -/
+def declBlocks (d : Decl) : List (List Nat) := (declVA d).2.map (·.map (·.index))
+
+/-- operation and vertex numbers of every block -/
+def declOb (d : Decl) : List (OpDecl × List Nat) := (declOps d).zip (declBlocks d)
+
+def patchesOf (d : Decl) (ob : List (OpDecl × List Nat)) : List PEntry :=
+  d.modifyAfter.foldl modifyPatch
+    (ob.foldl (fun ps x => addPatches ps x.1 x.2) (d.modifyBefore.foldl modifyPatch []))
+
+def facesOf (ob : List (OpDecl × List Nat)) : List FEntry := ob.foldl (fun fs x => addFaces fs x.1 x.2) []
+
+def edgesOf (ob : List (OpDecl × List Nat)) : List EEntry := ob.foldl (fun es x => addEdges es x.1 x.2) []
+
+def declGeometry (d : Decl) : List GEntry :=
+  d.geomAfter.foldl addGeometry
+    ((d.depot.flatMap (·.geometry)).foldl addGeometry (d.geomBefore.foldl addGeometry []))
+
+def blocksOf (ob : List (OpDecl × List Nat)) : List BEntry :=
+  ob.zipIdx.map (fun x => blockEntry x.2 x.1.1 x.1.2)
+
+/-- the dictionary, given the vertex list and the vertex numbers of the blocks -/
+def dictOf (d : Decl) (vl : C05.VList Corner String) (ob : List (OpDecl × List Nat)) : Dict :=
+  { foamFile := d.foamFile, headComment := d.headComment, settings := d.settings,
+    geometry := declGeometry d,
+    vertices := vl.vertices.map vertexEntry,
+    blocks := blocksOf ob,
+    edges := edgesOf ob, faces := facesOf ob, patches := patchesOf d ob, default := d.default,
+    merged := d.mergedBefore ++ d.mergedAfter, footer := d.footer }
+
+/-- `Mesh.assemble` followed by the calls made after it, as the dictionary that `write` prints -/
+def assembleDecl (d : Decl) : Dict :=
+  let va := declVA d
+  dictOf d va.1 ((declOps d).zip (va.2.map (·.map (·.index))))
+
+/-! ### checks on the dictionary -/
+
+/-- every index (hex corners, edge ends, projected quads, patch quads) refers to a listed vertex -/
+def indicesOk (d : Dict) : Bool :=
+  let n := d.vertices.length
+  d.blocks.all (fun b => b.verts.all (· < n)) && d.edges.all (fun e => e.v1 < n && e.v2 < n) &&
+  d.faces.all (fun f => f.quad.all (· < n)) && d.patches.all (fun p => p.quads.all (·.all (· < n)))
+
+def atomsDeep : List Tree → List String
+  | [] => []
+  | .atom s :: ts => s :: atomsDeep ts
+  | _ :: ts => atomsDeep ts
+
+/-- labels used by `project` entries of vertices, edges and faces -/
+def labelsUsed (d : Dict) : List String :=
+  d.vertices.flatMap (·.proj) ++
+  (d.edges.filter (·.kind == "project")).flatMap (fun e => atomsDeep e.payload) ++
+  d.faces.map (·.label)
+
+/-- every geometry that something is projected to is defined -/
+def geometryOk (d : Dict) : Bool :=
+  (labelsUsed d).all (fun l => d.geometry.any (·.name == l))
+
+/-- a quad is a side of a block: `FACE_MAP[orient]` of its vertex list -/
+def isSideOfBlock (d : Dict) (q : List Nat) : Bool :=
+  d.blocks.any (fun b => CBV.Gen.faceMap.any (fun e => q == e.2.map (fun i => b.verts.getD i 0)))
+
+def quadsOk (d : Dict) : Bool :=
+  d.faces.all (fun f => isSideOfBlock d f.quad) && d.patches.all (fun p => p.quads.all (isSideOfBlock d))
+
+/-! ## 4. the debug VTK -/
+
+/-- token stream (whitespace separated words) of `write_vtk`; `pts` are the `str()` of the
+    coordinates, `cells` the vertex indices of the blocks -/
+def renderVtk (header : List String) (pts : List (List String)) (cells : List (List Nat)) : List String :=
+  let n := cells.length
+  header ++ ["DATASET", "UNSTRUCTURED_GRID", "POINTS", toString pts.length, "float"] ++ pts.flatten ++
+  ["CELLS", toString n, toString (9 * n)] ++ cells.flatMap (fun c => "8" :: c.map toString) ++
+  ["CELL_TYPES", toString n] ++ List.replicate n "12" ++
+  ["CELL_DATA", toString n, "SCALARS", "block_ids", "float", "1", "LOOKUP_TABLE", "default"] ++
+  (List.range n).map toString
+
+/-- reads `k` groups of `m` words -/
+def takeGroups : Nat → Nat → List String → Option (List (List String) × List String)
+  | 0, _, ws => some ([], ws)
+  | k + 1, m, ws =>
+      if ws.length < m then none
+      else (takeGroups k m (ws.drop m)).map (fun (gs, rest) => (ws.take m :: gs, rest))
+
+def strsToNats : List String → Option (List Nat)
+  | [] => some []
+  | s :: ss => do
+      let n ← s.toNat?
+      let r ← strsToNats ss
+      some (n :: r)
+
+/-- `8 i0 … i7` groups -/
+def decCells : List (List String) → Option (List (List Nat))
+  | [] => some []
+  | ("8" :: ix) :: cs => do
+      let c ← strsToNats ix
+      let r ← decCells cs
+      some (c :: r)
+  | _ :: _ => none
+
+/-- parser of the VTK token stream: points and hexahedra -/
+def parseVtk (hdrLen : Nat) (ws : List String) : Option (List (List String) × List (List Nat)) :=
+  match ws.drop hdrLen with
+  | "DATASET" :: "UNSTRUCTURED_GRID" :: "POINTS" :: np :: "float" :: rest => do
+      let np ← np.toNat?
+      let (pts, rest) ← takeGroups np 3 rest
+      match rest with
+      | "CELLS" :: nc :: _ :: rest => do
+          let nc ← nc.toNat?
+          let (cells, _) ← takeGroups nc 9 rest
+          let cells ← decCells cells
+          some (pts, cells)
+      | _ => none
+  | _ => none
+
+/-! ## 5. line protocol
+
+Words of a request are `=text` (text with `%xx` escapes) for strings, decimal numbers, `!` for an
+absent optional value.  Lists are length-prefixed. -/
+
+def hexVal (c : Char) : Option Nat :=
+  if '0' ≤ c ∧ c ≤ '9' then some (c.toNat - '0'.toNat)
+  else if 'a' ≤ c ∧ c ≤ 'f' then some (c.toNat - 'a'.toNat + 10)
+  else if 'A' ≤ c ∧ c ≤ 'F' then some (c.toNat - 'A'.toNat + 10)
+  else none
+
+def unescapeAux : List Char → Option (List Char)
+  | [] => some []
+  | '%' :: a :: b :: rest => do
+      let x ← hexVal a
+      let y ← hexVal b
+      let r ← unescapeAux rest
+      some (Char.ofNat (16 * x + y) :: r)
+  | '%' :: _ => none
+  | c :: rest => (unescapeAux rest).map (c :: ·)
+
+def unescape (s : String) : Option String := (unescapeAux s.toList).map String.ofList
+
+def hexDigit (n : Nat) : Char := if n < 10 then Char.ofNat (48 + n) else Char.ofNat (87 + n)
+
+def escape (s : String) : String :=
+  String.join (s.toList.map (fun c =>
+    if c.isAlphanum || c == '_' || c == '.' || c == '-' || c == '/' || c == '(' || c == ')' || c == '{' ||
+        c == '}' || c == ';' || c == '*' || c == '+' || c == ':' || c == ',' then c.toString
+    else "%" ++ (hexDigit (c.toNat / 16)).toString ++ (hexDigit (c.toNat % 16)).toString))
+
+/-- a token of the file as a word of the protocol (and back) -/
+def Tok.ofString (s : String) : Tok :=
+  if s = "(" then .lp else if s = ")" then .rp else if s = "{" then .lb else if s = "}" then .rb
+  else if s = ";" then .semi else if s.startsWith "//" then .comment s else .word s
+
+def Tok.toString : Tok → String
+  | .lp => "(" | .rp => ")" | .lb => "{" | .rb => "}" | .semi => ";"
+  | .word s => s | .comment s => s
+
+abbrev Rd := StateT (List String) Option
+
+def rdWord : Rd String := do
+  match (← get) with
+  | [] => failure
+  | w :: ws => set ws; pure w
+
+def rdNat : Rd Nat := do
+  let w ← rdWord
+  match w.toNat? with
+  | some n => pure n
+  | none => failure
+
+def rdStr : Rd String := do
+  let w ← rdWord
+  if w.startsWith "=" then
+    match unescape (w.drop 1).toString with
+    | some s => pure s
+    | none => failure
+  else failure
+
+def rdOptStr : Rd (Option String) := do
+  match (← get) with
+  | "!" :: ws => set ws; pure none
+  | _ => (some <$> rdStr)
+
+def rdBool : Rd Bool := do
+  let w ← rdWord
+  if w = "1" then pure true else if w = "0" then pure false else failure
+
+def rdRepeat {α : Type} (p : Rd α) : Nat → Rd (List α)
+  | 0 => pure []
+  | n + 1 => do
+      let x ← p
+      let xs ← rdRepeat p n
+      pure (x :: xs)
+
+def rdList {α : Type} (p : Rd α) : Rd (List α) := do
+  let n ← rdNat
+  rdRepeat p n
+
+/-- a balanced token list, as trees -/
+def rdTrees : Rd (List Tree) := do
+  let ws ← rdList rdStr
+  match parseTrees (ws.map Tok.ofString) with
+  | some ts => pure ts
+  | none => failure
+
+def rdRat : Rd (Bool × Rat) := do
+  let w ← rdWord
+  match parseRat? w with
+  | some q => pure (w.startsWith "-", q)
+  | none => failure
+
+def rdCorner : Rd Corner := do
+  let (nx, x) ← rdRat
+  let (ny, y) ← rdRat
+  let (nz, z) ← rdRat
+  let vtk ← rdRepeat rdStr 3
+  let proj ← rdList rdStr
+  pure ⟨⟨x, y, z⟩, [nx, ny, nz], vtk, proj⟩
+
+def rdPre : Rd (Option (String × String)) := do
+  match (← get) with
+  | "!" :: ws => set ws; pure none
+  | _ => do
+      let a ← rdStr
+      let b ← rdStr
+      pure (some (a, b))
+
+def rdEdge : Rd EdgeDecl := do
+  let repr ← rdStr
+  let valid ← rdBool
+  let preF ← rdPre
+  let fwd ← rdTrees
+  let preB ← rdPre
+  let bwd ← rdTrees
+  pure ⟨repr, valid, preF, fwd, preB, bwd⟩
+
+def rdOp : Rd OpDecl := do
+  let deleted ← rdBool
+  let corners ← rdRepeat rdCorner 8
+  let patches ← rdRepeat rdOptStr 6
+  let sideProj ← rdRepeat rdOptStr 4
+  let bp ← rdOptStr
+  let tp ← rdOptStr
+  let zone ← rdStr
+  let counts ← rdTrees
+  let gkind ← rdStr
+  let grading ← rdTrees
+  let edges ← rdRepeat rdEdge 12
+  pure ⟨deleted, corners, patches, sideProj, bp, tp, zone, counts, gkind, grading, edges⟩
+
+def rdGEntry : Rd GEntry := do
+  let n ← rdStr
+  let props ← rdList rdTrees
+  pure ⟨n, props⟩
+
+def rdEntity : Rd Entity := do
+  let ops ← rdList rdOp
+  let g ← rdList rdGEntry
+  pure ⟨ops, g⟩
+
+def rdPair : Rd (String × String) := do
+  let a ← rdStr
+  let b ← rdStr
+  pure (a, b)
+
+def rdModify : Rd Modify := do
+  let n ← rdStr
+  let k ← rdStr
+  match (← get) with
+  | "!" :: ws => set ws; pure ⟨n, k, none⟩
+  | _ => do
+      let s ← rdList rdTrees
+      pure ⟨n, k, some s⟩
+
+def rdSetting : Rd (String × List Tree) := do
+  let k ← rdStr
+  let v ← rdTrees
+  pure (k, v)
+
+def rdDefault : Rd (Option (String × String)) := do
+  match (← get) with
+  | "!" :: ws => set ws; pure none
+  | _ => (some <$> rdPair)
+
+/-- header and footer come from the generated tables -/
+def headerTrees : Option (List Tree × String) :=
+  match parseTrees (CBV.Gen.c06Header.map Tok.ofString) with
+  | some [.atom "FoamFile", .brace ff, .comment hc] => some (ff, hc)
+  | _ => none
+
+def footerComments : Option (List String) :=
+  (parseTrees (CBV.Gen.c06Footer.map Tok.ofString)).bind commentsOf
+
+def rdDecl : Rd Decl := do
+  let (ff, hc) ← (headerTrees : Option _)
+  let ft ← (footerComments : Option _)
+  let settings ← rdList rdSetting
+  let gb ← rdList rdGEntry
+  let ga ← rdList rdGEntry
+  let mb ← rdList rdPair
+  let ma ← rdList rdPair
+  let dflt ← rdDefault
+  let pb ← rdList rdModify
+  let pa ← rdList rdModify
+  let depot ← rdList rdEntity
+  pure ⟨ff, hc, ft, settings, gb, ga, mb, ma, dflt, pb, pa, depot⟩
+
+def showToks (ts : List Tok) : String := " ".intercalate (ts.map (fun t => escape t.toString))
+
+def b2s (b : Bool) : String := if b then "1" else "0"
+
+/-- does the verified parser read the rendering back as the same dictionary (compared through
+    the rendering, since `Tree` has no decidable equality here) -/
+def roundTripOk (d : Dict) : Bool :=
+  match parse (render d) with
+  | some d' => render d' == render d && d'.vertices.length == d.vertices.length
+  | none => false
+
+/-- `c06.render <declaration>` → flags and the token stream of the file -/
+def handleRender (args : List String) : Option String := do
+  let (decl, rest) ← rdDecl.run args
+  if !rest.isEmpty then none
+  let d := assembleDecl decl
+  some (s!"ok idx={b2s (indicesOk d)} geom={b2s (geometryOk d)} quads={b2s (quadsOk d)} rt={b2s (roundTripOk d)} T " ++
+    showToks (render d))
+
+/-- `c06.vtk <declaration>` → token stream of the debug VTK -/
+def handleVtk (args : List String) : Option String := do
+  let (decl, rest) ← rdDecl.run args
+  if !rest.isEmpty then none
+  let va := declVA decl
+  let pts := va.1.vertices.map (·.pos.vtk)
+  let cells := va.2.map (·.map (·.index))
+  let out := renderVtk CBV.Gen.c06VtkHeader pts cells
+  let back := match parseVtk CBV.Gen.c06VtkHeader.length out with
+    | some (p, c) => p == pts && c == cells
+    | none => false
+  some (s!"ok rt={b2s back} T " ++ " ".intercalate (out.map escape))
+
+/-- `c06.parse <tokens of a file>` → does it parse as a blockMeshDict; sizes and flags -/
+def handleParse (args : List String) : Option String := do
+  let toks ← args.mapM (fun w => (unescape w).map Tok.ofString)
+  match parse toks with
+  | some d =>
+      some (s!"ok v={d.vertices.length} b={d.blocks.length} e={d.edges.length} f={d.faces.length} " ++
+        s!"p={d.patches.length} g={d.geometry.length} idx={b2s (indicesOk d)} geom={b2s (geometryOk d)} " ++
+        s!"quads={b2s (quadsOk d)} same={b2s (render d == toks)}")
+  | none => some "noparse"
+
+def handle (op : String) (args : List String) : Option String :=
+  match op with
+  | "c06.render" => handleRender args
+  | "c06.vtk" => handleVtk args
+  | "c06.parse" => handleParse args
+  | _ => none
 
 end CBV.C06
